@@ -379,6 +379,8 @@ func vsubMultiset(a, b []string) (string, bool) {
 
 func vpanicKind(msg string) string {
 	switch {
+	case strings.HasPrefix(msg, "verif-accept:"):
+		return "accepted-malformed"
 	case strings.Contains(msg, "makeslice: len out of range"):
 		return "makeslice-len"
 	case strings.Contains(msg, "makeslice: cap out of range"):
